@@ -50,6 +50,9 @@ class Frame:
         # parameter -> (argument path expression, caller frame), for
         # parameters bound to a plain name / attribute path
         self.bindings = {}
+        self.children = []
+        if parent is not None:
+            parent.children.append(self)
 
     def chain(self) -> List['Frame']:
         out, f = [], self
